@@ -145,6 +145,8 @@ def gen_det_wf(rng: random.Random, d: int, ch, *, dmm=False, weights_max=1.0, we
         v = pick(rng, [dmax, -dmax, dmax + 4e-7, -(dmax + 4e-7)])
         return {"w": "const", "d": d, "v": v}
     v = round(rng.uniform(-dmax, dmax), 4)
+    if dmax == 0.0 and r > 0.9:
+        v = pick(rng, [0.5, -2.0, 1e-5])  # must be refused on a resonant-only channel
     if r < 0.75 or d < 2:
         return {"w": "const", "d": d, "v": v}
     return {"w": "ramp", "d": d, "a": v, "b": round(rng.uniform(-dmax, dmax), 4)}
